@@ -48,7 +48,7 @@ PLAIN_WORDS = [
     "PROPERTY", "P", "Px", "P10", "o2", "xx", "the", "quick", "brown", "fox", "jumps", "over", "lazy", "dog", "0", "007",
 ]
 PUNCT_TAIL = [",", ".", "?", "!", ";", ":", ")", "...", "?!"]
-SYMBOL_WORDS = ["&", "=", "?", "*", "~", "<", ">", "|", "\\", "`", "{", "}", "_", "^", "$", "-", "--", "=>", "<=", "(", ")", "!", ";", ",", "/"]
+SYMBOL_WORDS = ["#", "@", "%", "&", "=", "?", "*", "~", "<", ">", "|", "\\", "`", "{", "}", "_", "^", "$", "-", "--", "=>", "<=", "(", ")", "!", ";", ",", "/"]
 # first body words of notes WITHOUT ZID that are, by the format's definition, ordinary words, but that
 # look date-ish to one helper or another (relative date specs, near-dates, bare P)
 HOSTILE_FIRST = ["3D", "10m", "2d", "1y", "0d", "12M", "7D", "2024-1-1", "20240101", "2024-01", "P", "Px", "1015", "0", "d", "-1d", "10min", "5x"]
@@ -77,6 +77,14 @@ def w_punct(rng: random.Random) -> W:
     if r < 0.9:
         return W(w + "-" + rng.choice(PLAIN_WORDS), form="punct")
     return W(w + "." + rng.choice(PLAIN_WORDS) + "/" + rng.choice(PLAIN_WORDS), form="punct")
+
+
+ODD_WORDS = ["'tis", "it's", '"unterminated', "[x]", "a=b", "{a}", "50%", "c++", "a@b", "x#y", "e.g.", "(see", "end)", "--flag", "a/b/c", "*bold*", "_it_", "~5", "<tag>", "1/2", "3.14", "v1.2.3", "q?", "a&b", "$5", "^up"]
+
+
+def w_odd(rng: random.Random) -> W:
+    """Legal words of unusual shape that carry no metadata."""
+    return W(rng.choice(ODD_WORDS), form="odd")
 
 
 def w_symbol(rng: random.Random) -> W:
@@ -505,8 +513,10 @@ class PageGen:
             return w_plain(self.rng)
         if r < 0.75:
             return w_punct(self.rng)
-        if r < 0.82 and self.o.symbols:
+        if r < 0.79 and self.o.symbols:
             return w_symbol(self.rng)
+        if r < 0.83 and self.o.symbols:
+            return w_odd(self.rng)
         if r < 0.88:
             return w_quoted(self.rng)
         if r < 0.92:
